@@ -213,7 +213,7 @@ Definition the_mint (s : st) (ts bonded : Z) : Z :=
   block_mint bonded (rc s) ts (prev_ts s) (year_ms (year_of_ms ts)).
 
 Inductive outcome (s : st) (ts bonded : Z) (s' : st) : Prop :=
-| ODisabled : enabled s = false -> s' = s -> outcome s ts bonded s'
+| ODisabled : enabled s = false -> s' = set_prev s 0 -> outcome s ts bonded s'
 | OFirst : enabled s = true -> prev_ts s = 0 -> s' = set_prev s ts -> outcome s ts bonded s'
 | ONegative : enabled s = true -> prev_ts s <> 0 -> ~ capped s (the_mint s ts bonded) ->
     the_mint s ts bonded < 0 -> s' = s -> outcome s ts bonded s'
@@ -270,7 +270,7 @@ Proof.
   - unfold capped in C. rewrite <- Eb in C. lia.
 Qed.
 
-Theorem no_mint_when_disabled s ts bonded : enabled s = false -> end_blocker s ts bonded = Some s.
+Theorem no_mint_when_disabled s ts bonded : enabled s = false -> end_blocker s ts bonded = Some (set_prev s 0).
 Proof. intros E. unfold end_blocker. rewrite E. reflexivity. Qed.
 
 Theorem first_block_only_records_ts s ts bonded : enabled s = true -> prev_ts s = 0 ->
@@ -353,6 +353,72 @@ Proof.
   - unfold capped, dadd, of_int in C. rewrite Hm in C. pose proof prec_pos. nia.
 Qed.
 
+(** * activation, re-activation and the elapsed time *)
+
+(** a block with minting off mints nothing, keeps minting off and forgets the reference timestamp *)
+Theorem disabled_block_forgets_ts s b s' : block s b = Some s' -> enabled (apply_params s (b_params b)) = false ->
+  prev_ts s' = 0 /\ enabled s' = false /\ supply s' = supply s /\ fee_col s' = fee_col s.
+Proof.
+  unfold block. intros H E. rewrite (no_mint_when_disabled _ _ _ E) in H. inversion H; subst. cbn.
+  repeat split; try assumption; destruct (b_params b) as [[e c]|]; reflexivity.
+Qed.
+
+(** the first block after minting was off — whether minting is switched on again by this block's parameter change or
+    stays off — mints nothing; if it is on, the block records its own time and leaves minting on *)
+Theorem block_after_disabled_block_mints_nothing s b1 s1 b2 s2 :
+  block s b1 = Some s1 -> enabled (apply_params s (b_params b1)) = false -> block s1 b2 = Some s2 ->
+  supply s2 = supply s1 /\ fee_col s2 = fee_col s1 /\
+  (enabled (apply_params s1 (b_params b2)) = true -> prev_ts s2 = b_ts b2 /\ enabled s2 = true).
+Proof.
+  intros H1 E1 H2. destruct (disabled_block_forgets_ts _ _ _ H1 E1) as (P0 & _ & _ & _).
+  unfold block in H2. set (t := apply_params s1 (b_params b2)) in *.
+  assert (Pt : prev_ts t = 0) by (unfold t; destruct (b_params b2) as [[e c]|]; cbn; exact P0).
+  assert (St : supply t = supply s1 /\ fee_col t = fee_col s1) by (unfold t; destruct (b_params b2) as [[e c]|]; cbn; auto).
+  destruct St as [St Ft].
+  destruct (enabled t) eqn:Et.
+  - rewrite (first_block_only_records_ts _ _ _ Et Pt) in H2. inversion H2; subst s2. cbn.
+    split; [exact St|]. split; [exact Ft|]. intros _. split; [reflexivity|exact Et].
+  - rewrite (no_mint_when_disabled _ _ _ Et) in H2. inversion H2; subst s2. cbn.
+    split; [exact St|]. split; [exact Ft|]. discriminate.
+Qed.
+
+Lemma the_mint_nonneg s ts bonded : 0 <= bonded -> 0 <= rc s -> prev_ts s <= ts -> 0 <= the_mint s ts bonded.
+Proof.
+  intros Hb Hc Ht. unfold the_mint. rewrite block_mint_unfold. apply dmul_nonneg.
+  - pose proof (reward_rate_nonneg (rc s) Hc). nia.
+  - apply elapsed_frac_nonneg; [apply year_ms_pos|assumption].
+Qed.
+
+(** with minting on, a block records its own time (so the elapsed time of the next block is measured between
+    consecutive block timestamps) — unless the formula amount is negative or the supply is above the maximum *)
+Theorem enabled_block_records_its_time s ts bonded s' :
+  end_blocker s ts bonded = Some s' -> enabled s = true ->
+  prev_ts s = 0 \/ (0 <= the_mint s ts bonded /\ supply s <= max_supply s) -> prev_ts s' = ts.
+Proof.
+  intros H En Hc.
+  destruct (end_blocker_outcome _ _ _ _ H) as [D|? ? ->|? P0 ? Ng ->|? ? ? ? ->|? P0 ? Ab ->|? ? ? ? ->]; try congruence; cbn; try reflexivity.
+  - destruct Hc as [Z0|[Nn _]]; [congruence|lia].
+  - destruct Hc as [Z0|[_ Le]]; [congruence|lia].
+Qed.
+
+(** two consecutive minting blocks: the second mints the formula amount for the time between the two block timestamps *)
+Theorem elapsed_is_between_consecutive_blocks s b1 s1 b2 s2 :
+  block s b1 = Some s1 -> block s1 b2 = Some s2 ->
+  let t1 := apply_params s (b_params b1) in let t2 := apply_params s1 (b_params b2) in
+  enabled t1 = true -> enabled t2 = true ->
+  0 <= b_bonded b1 -> 0 <= rc t1 -> prev_ts t1 <= b_ts b1 -> supply t1 <= max_supply t1 -> b_ts b1 <> 0 ->
+  the_mint t2 (b_ts b2) (b_bonded b2) =
+    block_mint (b_bonded b2) (rc t2) (b_ts b2) (b_ts b1) (year_ms (year_of_ms (b_ts b2))).
+Proof.
+  intros H1 H2 t1 t2 E1 E2 Hb Hc Ht Hs Hn. unfold block in H1. fold t1 in H1.
+  assert (P1 : prev_ts s1 = b_ts b1).
+  { apply (enabled_block_records_its_time t1 (b_ts b1) (b_bonded b1) s1 H1 E1).
+    destruct (Z.eq_dec (prev_ts t1) 0) as [Z0|N0]; [left; exact Z0|right].
+    split; [apply the_mint_nonneg; assumption|exact Hs]. }
+  unfold the_mint. replace (prev_ts t2) with (b_ts b1); [reflexivity|].
+  unfold t2. destruct (b_params b2) as [[e c]|]; cbn; congruence.
+Qed.
+
 (** * histories *)
 
 Lemma block_supply s b s' : block s b = Some s' ->
@@ -414,13 +480,14 @@ Example ex_year_boundaries :
 Proof. vm_compute. repeat split. Qed.
 
 (** a block that crosses the cap: mints the remainder and disables; the next
-    blocks mint nothing *)
+    block mints nothing and forgets the reference timestamp; switched on again at the cap, the third block only records
+    its time (first block after activation) *)
 Definition ex_cap : st := mkst 1700000000000 (of_int 20000000000 + 1000) true 7800000000000000000 (of_int 20000000000) 0 0.
 Example ex_cap_run :
   run ex_cap [mkblk 1700000005000 1000000000000000000000000000 None;
               mkblk 1700000010000 1000000000000000000000000000 None;
               mkblk 1700000015000 1000000000000000000000000000 (Some (true, 7800000000000000000))]
-  = Some (mkst 1700000015000 (of_int 20000000000 + 1000) false 7800000000000000000 (of_int 20000000000 + 1000) 1000 0).
+  = Some (mkst 1700000015000 (of_int 20000000000 + 1000) true 7800000000000000000 (of_int 20000000000 + 1000) 1000 0).
 Proof. vm_compute. reflexivity. Qed.
 
 (** the statements above, collected for Props/C13.v *)
@@ -446,7 +513,7 @@ Theorem nonvacuous :
   run ex_cap [mkblk 1700000005000 1000000000000000000000000000 None;
               mkblk 1700000010000 1000000000000000000000000000 None;
               mkblk 1700000015000 1000000000000000000000000000 (Some (true, 7800000000000000000))]
-    = Some (mkst 1700000015000 (of_int 20000000000 + 1000) false 7800000000000000000
+    = Some (mkst 1700000015000 (of_int 20000000000 + 1000) true 7800000000000000000
                  (of_int 20000000000 + 1000) 1000 0).
 Proof.
   refine (conj ex_mint (conj _ ex_cap_run)).
